@@ -41,6 +41,16 @@ theorem is_check_eq_inCheck (b : Board) (hb : Consistent b) (k : Sq) (hk : Spec.
   rw [isCheck_eq b hb, hk]
   simp [Spec.inCheck, hk]
 
+/-- `is_opponent_king_attacked` is true exactly when the king of the side that has just moved is attacked by the side to move -/
+theorem is_opponent_king_attacked_iff (b : Board) (hb : Consistent b) :
+    isOpponentKingAttacked? b =
+      (Spec.kingSq (abs b.r) b.r.side.inv).map fun k => Spec.attackedBy (abs b.r) k b.r.side := by
+  unfold isOpponentKingAttacked?
+  rw [kingPos_eq b hb]
+  cases Spec.kingSq (abs b.r) b.r.side.inv with
+  | none => rfl
+  | some k => simp [isCellAttacked_iff b hb]
+
 /-- the checkers query returns exactly the checking men -/
 theorem checkers_exact (b : Board) (hb : Consistent b) (s : Sq) :
     (checkers? b).map (fun bb => bb.has s) =
